@@ -247,8 +247,11 @@ class Machine:
         cur = env[l]
         ty = fn.locals[l]
         for p in projs:
-            if isinstance(cur, tuple) and cur and cur[0] == "ptr":
+            if isinstance(cur, tuple) and cur and cur[0] in ("ptr", "eptr"):
                 if p == "*":
+                    ms = re.match(r"^(?:&(?:mut )?|\*(?:const|mut) )([ui])(8|16|32|64)$", ty or "")
+                    if ms and len(projs) == 1:
+                        return self.load(cur, int(ms.group(2)) // 8)
                     continue
                 m = re.match(r"^[&*](?:mut |const )?\[(?:u|i)(\d+)(?:; \d+)?\]$", ty)
                 if m and p[0] in ("i", "c"):
@@ -418,8 +421,31 @@ class Machine:
         B = self.B
         if c.local and self.P.fn_opt(nm) is not None and not nm.startswith("core::") and not re.match(r"^cryptoutil::(read|write)_u(32|64)v_(le|be)$", nm):
             return self.call_fn(self.P.fn(nm), a)
+        if re.search(r"slice::<impl \[T\]>::get_unchecked(_mut)?$", nm) or re.search(r"array::<impl \[T; N\]>::get_unchecked(_mut)?$", nm):
+            x = a[0]
+            if isinstance(x, tuple) and x and x[0] == "lref":
+                x = x[1][x[2]]
+            if not isinstance(a[1], int):
+                raise Unsupported("get_unchecked with a symbolic / range index")
+            if isinstance(x, dict):
+                if a[1] not in x:
+                    raise Unsupported("get_unchecked(%d) outside the array" % a[1])
+                return ("lref", x, a[1])
+            if isinstance(x, tuple) and x and x[0] == "aslice":
+                if not (0 <= a[1] < x[3] - x[2]):
+                    raise Unsupported("get_unchecked(%d) outside the slice" % a[1])
+                return ("lref", x[1], x[2] + a[1])
+            mm = re.match(r"^[ui](\d+)$", (c.ga or [""])[0])
+            if isinstance(x, tuple) and x and x[0] == "ptr" and mm:
+                return ("ptr", x[1], x[2] + a[1] * (int(mm.group(1)) // 8))
+            raise Unsupported("get_unchecked on %r" % (str(x)[:40],))
+        if nm in ("core::ptr::read", "core::ptr::read_unaligned") or re.search(r"_ptr::<impl \*const T>::read(_unaligned)?$", nm):
+            sz = {"i32": 4, "u32": 4, "u8": 1, "u64": 8, "i64": 8, "u16": 2, "core::arch::x86_64::__m128i": 16, "core::arch::x86_64::__m256i": 32}.get((c.ga or [""])[0])
+            if sz is None:
+                raise Unsupported("ptr::read of %s" % (c.ga,))
+            return self.load(a[0], sz)
         if re.search(r"_ptr::<impl \*(const|mut) T>::add$", nm):
-            sz = {"core::arch::x86_64::__m128i": 16, "core::arch::x86_64::__m256i": 32, "u8": 1, "u32": 4, "u64": 8}.get(c.ga[0])
+            sz = {"core::arch::x86_64::__m128i": 16, "core::arch::x86_64::__m256i": 32, "u8": 1, "u32": 4, "u64": 8, "i32": 4, "i64": 8, "u16": 2, "i8": 1}.get(c.ga[0])
             if sz is None or not isinstance(a[1], int):
                 raise Unsupported("ptr.add on %s" % c.ga)
             if a[0][0] == "eptr":
